@@ -9,7 +9,7 @@ ASSUMPTIONS = [
     'attribute names are interned in sorted order (only their order and equality matter); types, metadata dicts and static values are interned as codes',
     'Python object identity is observed through an independent DFS canonical form (impl_graph.canon) and id() sets',
 ]
-HEADER = 'From Flaxm Require Import Lib.Harness Model.NnxFilters Model.Graph.\n' + GP.TYINFO
+HEADER = 'From Flaxm Require Import Lib.Harness Model.NnxFilters Model.Graph Proofs.Graph.\n' + GP.TYINFO
 
 
 def gen_filters(rng):
@@ -73,6 +73,9 @@ def run(chk):
       chk.violation('oracle', 'nnx.update replaced objects instead of updating Variables in place', {'case': c})
     sp = r['split']['ok']
     rows.append('flat_beq (flatten %s %s) (Some (%s, %s))' % (heap, root, GP.cgattr(['sub', sp['graphdef']]), GP.cflat(sp['flat'])))
+    # hypotheses of C03_leaf_order_sorted / C03_merge_split_any_order hold for this graph; its leaves are in sorted order
+    rows.append('(wf_heap %s && wf_value %s)' % (heap, root))
+    rows.append('(match flatten %s %s with Some (_, ls) => list_beq fleaf_beq (sort_leaves ls) ls | None => false end)' % (heap, root))
     # round trip inside the model: unflatten then flatten gives the same graphdef and leaves
     rows.append('(match flatten %s %s with Some (g, ls) => match unflatten g (map snd ls) with Some (h2, v2) => flat_beq (flatten h2 v2) (Some (g, ls)) | None => false end | None => false end)' % (heap, root))
     if 'split_filters' in r:
